@@ -74,23 +74,33 @@ fn main() {
         let v: Value = serde_json::from_str(&txt).expect("case file is not JSON");
         if v.get("case").is_some() { v["case"].clone() } else { v }
     };
-    if let Some(p) = &replay {
-        let case = load_case(p);
-        props::run(&prop, &mut ctx, Some(&case));
-    } else {
-        // minimised past failures run first
-        if let Some(dir) = &corpus {
-            let mut files: Vec<String> = std::fs::read_dir(dir)
-                .map(|rd| rd.filter_map(|e| e.ok()).map(|e| e.path().to_string_lossy().to_string()).filter(|p| p.ends_with(".json")).collect())
-                .unwrap_or_default();
-            files.sort();
-            for f in files {
-                let case = load_case(&f);
-                props::run(&prop, &mut ctx, Some(&case));
-                ctx.report.bump("corpus-cases");
+    // a panic of the harness itself (its own expectations about the crate's API no longer hold for
+    // this tree) must not lose the findings so far: it is reported as a broken correspondence
+    let run = std::panic::catch_unwind(std::panic::AssertUnwindSafe(|| {
+        if let Some(p) = &replay {
+            let case = load_case(p);
+            props::run(&prop, &mut ctx, Some(&case));
+        } else {
+            // minimised past failures run first
+            if let Some(dir) = &corpus {
+                let mut files: Vec<String> = std::fs::read_dir(dir)
+                    .map(|rd| rd.filter_map(|e| e.ok()).map(|e| e.path().to_string_lossy().to_string()).filter(|p| p.ends_with(".json")).collect())
+                    .unwrap_or_default();
+                files.sort();
+                for f in files {
+                    let case = load_case(&f);
+                    props::run(&prop, &mut ctx, Some(&case));
+                    ctx.report.bump("corpus-cases");
+                }
             }
+            props::run(&prop, &mut ctx, None);
         }
-        props::run(&prop, &mut ctx, None);
+    }));
+    if run.is_err() {
+        let site = real::last_panic();
+        let cur = real::current_case();
+        ctx.report.diff("correspondence", "harness", &format!("harness:panic:{}", site.split(' ').next().unwrap_or("")), &cur,
+            serde_json::json!({"panic": site, "note": "the harness itself panicked while exercising this tree; the case is the one it was working on"}));
     }
     let wall = t0.elapsed().as_secs_f64();
     let result = ctx.report.to_json(wall, ctx.driver.requests);
